@@ -68,7 +68,7 @@ def rand_value(rng, dtype):
 def gen_matrix(rng, kind=None, dtype=None):
     """A 2-d numpy matrix with exact zeros as 'not stored'.  kinds: tiny (0..4 x 0..4),
     small, big (>100 stored values), wide (>255 columns), onerow, onecol, zero, full."""
-    kind = kind or rng.choice(['tiny', 'small', 'small', 'big', 'big', 'big', 'wide', 'onerow',
+    kind = kind or rng.choice(['tiny', 'small', 'small', 'big', 'big', 'big', 'big', 'big', 'big', 'wide', 'onerow',
                                'onecol', 'zero', 'full'])
     dtype = dtype or rng.choice(DTYPES)
     if kind == 'tiny':
@@ -93,6 +93,8 @@ def gen_matrix(rng, kind=None, dtype=None):
         nr, nc, dens = rng.randrange(1, 140), 1, rng.choice([0.0, 0.3, 1.0])
     elif kind == 'zero':
         nr, nc, dens = rng.randrange(1, 7), rng.randrange(1, 7), 0.0
+    elif kind == 'dense':
+        nr, nc, dens = rng.randrange(6, 20), rng.randrange(2, 12), 0.8
     else:
         nr, nc, dens = rng.randrange(1, 13), rng.randrange(1, 13), 1.0
     M = np.zeros((nr, nc), dtype=dtype)
@@ -170,9 +172,9 @@ def budgets(max_gb, data_dtype, indices_dtype, indptr_dtype):
 def rand_gb(rng):
     """max_gb values from 'everything at the enforced minimum of 100' upwards."""
     k = rng.random()
-    if k < 0.3:
+    if k < 0.45:
         return rng.choice([1e-9, 1e-7, 5e-7])                 # all three budgets at 100
-    if k < 0.8:
+    if k < 0.85:
         return rng.randrange(800, 40000) / 1024 ** 3 / 0.64    # a few hundred elements
     return rng.choice([0.001, 1, 10])
 
@@ -830,7 +832,7 @@ def nonzero_matrix(rng, kinds=('tiny', 'small', 'small', 'big', 'zero', 'onerow'
 def op_pivot(ctx, d, i):
     from cell_type_mapper.utils.anndata_utils import pivot_csr_h5ad
     rng = ctx.rng
-    M, kind = nonzero_matrix(rng)
+    M, kind = nonzero_matrix(rng, kinds=('tiny', 'small', 'big', 'zero', 'onerow', 'full', 'full', 'full', 'dense'))
     src, dst = d / f'pv_src_{i}.h5ad', d / f'pv_dst_{i}.h5ad'
     with quiet():
         gen.write_h5ad(src, M, names('c', M.shape[0]), names('g', M.shape[1]), encoding='csr',
